@@ -29,11 +29,13 @@ def scan_text(what):
 claim("C01", "model_checking", scan_text(
       "at every smooth point the term vectors of the documented mass / momentum / energy equations (term lists and counts owned by "
       "spec/Catalogue.tla, incl. the Coggeshall heat-flux term in its three conduction kinds), measured by 4th-order differences of the "
-      "public call in r and t, must balance."), MEAS, TECH, "DESIGN.md 9 C01")
+      "public call in r and t, must balance. Families: Noh, Noh2, Coggeshall 1-21, Sedov (3 solution types), both 1-D Riemann solvers (JWL included), EHEP, black-box Noh, "
+      "RMTV (incl. the conduction term; the clock is the heat-front position) and Guderley (gamma = 2, 3, 4; balances in the accepted time and in the similarity solution's own time)."), MEAS, TECH, "DESIGN.md 9 C01")
 claim("C02", "model_checking", scan_text(
       "every discontinuity located from the returned fields (bisection / m-ary search) must satisfy mass, momentum and energy flux balance "
       "in the frame moving with the speed implied by its located positions at t -/+ dt; contacts carry equal p, u and move with the fluid; "
-      "the sequence of regions and waves must be a word of the family's region grammar."), MEAS, TECH, "DESIGN.md 9 C02")
+      "the sequence of regions and waves must be a word of the family's region grammar. Also the RMTV isothermal shock (mass, momentum, continuous temperature, documented position, cold state ahead) "
+      "and the Guderley converging and reflected shocks."), MEAS, TECH, "DESIGN.md 9 C02")
 claim("C03", "model_checking", scan_text(
       "on every returned point the EOS declared in spec/Catalogue.tla is evaluated by TLC itself in sign/log integer arithmetic "
       "(gamma law with the gamma of the point's side of the contact, Coggeshall pair p=Gamma rho T, e=Gamma T/(gamma-1))."), MEAS, TECH, "DESIGN.md 9 C03")
@@ -48,12 +50,14 @@ claim("C17", "model_checking", scan_text(
 
 claim("C05", "model_checking",
       "TLC enumerates every behaviour of the API-contract state machine spec/Session.tla (constructor probes ok / unknown parameter / missing value; "
-      "Call with 3 containers x 4 request sizes x 4 orders; CSV dump and read-back) with the invariants of the model; each behaviour is instantiated "
+      "Call with 3 containers x 4 request sizes x 5 orders, also two calls of one object in two different orders; an unknown name next to a second valid parameter set; CSV dump and read-back) with the invariants of the model; each behaviour is instantiated "
       "for every public solver class found by introspection (120 today, new classes are picked up automatically) and replayed in a real interpreter; "
       "the recorded operation events are validated against the specification by spec/TraceSession.tla (enabledness of each operation + the contract "
-      "clauses: record count, positions echoed in order and first, standard names, input not modified or aliased, container equivalence, exact CSV round trip).",
+      "clauses: record count, positions echoed in order and first, standard names, input not modified or aliased, container equivalence, exact CSV round trip). "
+      "Code -> spec: a pytest plugin living in /verif (harness/pytest_trace.py; run-time wrappers, nothing in /repo is edited) records every construction and call made by the "
+      "repository's OWN tests, one behaviour per test, and the same TraceSession validates them (quick: ten test files; thorough: the whole suite).",
       "Trusted base: TLC; harness/session.py (replay, abstraction of the reply) and harness/registry.py (a valid request per class); Python's csv/float for the read-back. "
-      "Slow classes replay a subset of the behaviours in the quick tier; RateStick/ExplosiveArc/Guderley/Sn/CylindricalSandwich are only constructed in quick.",
+      "Slow classes replay a subset of the behaviours in the quick tier; RateStick/ExplosiveArc/Sn/CylindricalSandwich are only constructed in quick.",
       "TLC behaviour enumeration of Session.tla replayed into the real classes + TLA+ trace validation", "DESIGN.md 9 C05")
 
 claim("C06", "model_checking",
@@ -66,7 +70,7 @@ claim("C06", "model_checking",
       "tolerance 1e-6, or the documented resolution for grid-dependent solvers). A batch-independence sweep (shuffled request with a duplicate and documented edge "
       "points vs one-point requests) covers every constructible class in both parameter sets.",
       "Trusted base: TLC; harness/interp.py; a forked child of a parent that only imported exactpack counts as a fresh interpreter; verdicts come from returned values only "
-      "(never from module internals). Behaviours are a seeded sample (VERIF_SEED), not exhaustive; Guderley / Sn / RateStick / ExplosiveArc are not replayed.",
+      "(never from module internals). Behaviours are a seeded sample (VERIF_SEED), not exhaustive; Sn / RateStick / ExplosiveArc are not replayed; Guderley is replayed with gamma = 3 and 2 (seconds per call; minutes for 1.4).",
       "TLC model checking of Interp.tla + TLC-generated behaviours replayed with a fresh-process oracle + TLA+ trace validation", "DESIGN.md 9 C06")
 
 claim("C20", "model_checking",
@@ -84,12 +88,12 @@ REL_NOTE = ("Trusted base: TLC; harness/drivers/relations.py + generic.py (build
             "arithmetic with rational exponents. Finite campaign, exhaustively enumerated (expensive routes are a seeded sample in the quick tier).")
 REL_TECH = "TLA+ trace validation (TLC) of pair relations over a TLC-enumerated campaign"
 claim("C07", "model_checking",
-      "Routes of spec/RelCampaign.tla (Noh=Cog19, Noh=black-box Noh with an ideal gas and a physical Newton guess, Noh2=Noh2Cog, Noh2=Cog1(b=0, t->1-t, u->-u), every "
+      "Routes of spec/RelCampaign.tla (Noh=Cog19, Noh=black-box Noh with an ideal gas and a physical Newton guess - solved once and solved again from another guess, Noh2=Noh2Cog, Noh2=Cog1(b=0, t->1-t, u->-u), every "
       "geometry wrapper = general class, Rod1D = the three planar sandwiches, Rod BC3 = mirrored BC4, Kenamond 2-D = 3-D on a common plane, IGEOS = GenEOS on ideal-gas data) "
       "crossed with the whole parameter campaign; both routes are run and TLC checks field-by-field agreement at the resolution class of the less accurate route.",
       REL_NOTE, REL_TECH, "DESIGN.md 9 C07")
 claim("C08", "model_checking",
-      "For 16 families TLC computes from the dimension vectors of spec/Relations.tla (exponents of M, L, T, Theta in exact rationals, configuration dependent for Sedov and Coggeshall) "
+      "For 17 families TLC computes from the dimension vectors of spec/Relations.tla (exponents of M, L, T, Theta in exact rationals, configuration dependent for Sedov and Coggeshall) "
       "how every constructor parameter is rescaled for two independent scale-factor sets; the harness runs the solver in both unit systems and TLC checks that every output field "
       "changed by the factor its own dimension vector dictates (tolerance 5e-5: the same algorithm on rescaled inputs).",
       REL_NOTE, REL_TECH, "DESIGN.md 9 C08")
@@ -128,7 +132,7 @@ claim("C15", "model_checking",
 claim("C16", "model_checking",
       "spec/EosCampaign.tla enumerates EOS classes x constants x states in the domain of validity, the four residual formulations x symmetries x initial states, and Newton solves; "
       "the harness measures closure inverses, analytic partials vs 4th-order central differences, Jacobian entries vs differences of the residual, equilibrated J J^-1 - I, and the jump "
-      "conditions of converged solves (planar symmetry for non-ideal EOS, all symmetries for the ideal gas); spec/TraceEos.tla checks each term vector (2e-5) and D > 0.",
+      "conditions of converged solves (planar symmetry for non-ideal EOS, all symmetries for the ideal gas; constants given at construction or reached through the public setters after a first use); spec/TraceEos.tla checks each term vector (2e-5) and D > 0.",
       MEAS, TECH, "DESIGN.md 9 C16")
 
 claim("C14", "model_checking",
